@@ -1321,6 +1321,11 @@ def simplify(e):
            n.func.attr in ('add', 'sub', 'mul', 'truediv'):
             op_ = {'add': ast.Add, 'sub': ast.Sub, 'mul': ast.Mult, 'truediv': ast.Div}[n.func.attr]()
             return ast.BinOp(left=n.args[0], op=op_, right=n.args[1])
+        if isinstance(n, ast.Call) and isinstance(n.func, ast.Attribute) and isinstance(n.func.value, ast.Constant) and \
+           isinstance(n.func.value.value, str) and not n.args and not n.keywords and \
+           n.func.attr in ('upper', 'lower', 'strip', 'lstrip', 'rstrip', 'title', 'capitalize'):
+            # a string method on a literal (built-in, nothing of the repository runs)
+            return ast.Constant(value=getattr(n.func.value.value, n.func.attr)())
         if isinstance(n, ast.UnaryOp) and isinstance(n.op, ast.Not) and isinstance(n.operand, ast.Constant):
             return ast.Constant(value=not n.operand.value)
         if isinstance(n, ast.IfExp) and isinstance(n.test, ast.Constant):
